@@ -74,12 +74,7 @@ def run_shape(chk, ns, nq, np_, nv, n_sym_T, tgrid="T0-first"):
                     return
         chk.harness_error("counterexample for %s did not reproduce on the real code (encoding suspect)" % name)
 
-    try:
-        res = X.run_single_path(run, name="C02:" + tag)
-    except SymError as e:
-        chk.harness_error("symbolic run failed: %s" % e)
-        return
-    except Exception as e:
+    def concrete_raise_check(e):
         point = PC.random_env(ctx, rng)
         c = PC.concretise_duck(d, point)
         try:
@@ -89,8 +84,24 @@ def run_shape(chk, ns, nq, np_, nv, n_sym_T, tgrid="T0-first"):
             chk.harness_error("symbolic run raised %r but the concrete run did not" % (e,))
         except Exception as e2:
             chk.violation("raises", "real class raises %s: %s" % (type(e2).__name__, e2), dict(shape=tag, point=point))
-        return
 
+    try:
+        paths = X.explore(run, name="C02:" + tag, max_paths=16)
+    except SymError as e:
+        chk.harness_error("symbolic run failed: %s" % e)
+        return
+    for pi, p in enumerate(paths):
+        if chk.violations:
+            break       # one replayed violation is enough; the remaining paths would only repeat it
+        with X.path_assumptions(p):
+            if p.exception is not None:
+                concrete_raise_check(p.exception)
+                continue
+            judge(chk, ns, tag + ("" if len(paths) == 1 else "@path%d" % pi), ctx, d, H, K, ei, ej, nv, p.result, expected, replay, rng,
+                  nq, np_, first=(pi == 0))
+
+
+def judge(chk, ns, tag, ctx, d, H, K, ei, ej, nv, res, expected, replay, rng, nq, np_, first=True):
     nt = d.nt
     for k in ("long_gap", "off_gap", "long_i2a"):
         expected[k] = numpy.empty((nt, nv), dtype=object)
